@@ -131,6 +131,25 @@ CHECKS = {
          'the addresses of the labels containing it.',
          'The naming format is deliberately not pinned.',
          'DESIGN.md section 3 C16'),
+ 'C04': ('model_checking',
+         'explicit-state search over (operand values x block scratch residue) of every documented hex macro form executed by the real stl on the working-tree native engine; whole-image frame invariant',
+         'About 60 hex macro forms (memory, logic, add/sub and their shifted / constant forms, inc/dec/neg/abs, shifts, count_bits, '
+         'sign_extend, mul, mul10, add_mul, div, idiv with every rem_opt, if/if0/if1/sign/cmp/scmp/min/max/if_flags, single-hex '
+         'forms) as blocks of one assembled program: n=1 and n=2 exhaustively (65 536 operand pairs per two-operand block), '
+         'every vector length 3..20 (thorough ..40, 64, 130) over a boundary alphabet, w=64/32(/16). Every transition checks the '
+         'destination value against the doc-comment formula, the documented exit, and that NO other word of the whole memory image '
+         'changed (no stale carry / table state); every distinct scratch residue a block leaves is re-explored against every '
+         'operand tuple (closure), which decides arbitrary compositions; mixed block sequences are compared with the composed model.',
+         'Trusts the transcription R6 (fjv/stlspec.py). Words 0..3 (no-flip sink, dummy variable at address 0, IO cells) are exempt from the frame. Scratch-heavy blocks (mul, div) hit the 24-residue cap (reported).',
+         'DESIGN.md section 3 C04/C05'),
+ 'C05': ('model_checking',
+         'explicit-state search over (operand values x block scratch residue) of every documented bit macro form; whole-image frame invariant',
+         'About 50 bit macro forms (memory, logic incl. xor_zero, if/if0/if1/cmp, shifts and rotates, inc/dec/neg/add/sub, mul, '
+         'mul_loop, mul10, div10, div/idiv and their loop variants, single-bit forms incl. inc1/add1): every vector length 1..8 '
+         'exhaustively (all 65 536 operand pairs at n=8), 9..24 (thorough ..40, 64) over a boundary alphabet, at w=32/64/16; same '
+         'oracle, frame invariant, residue closure and mixed sequences as C04.',
+         'As C04. Harnesses that do not fit the 2^16-bit address space at w=16 are skipped and counted.',
+         'DESIGN.md section 3 C04/C05'),
 }
 
 NOT_YET = {
